@@ -110,6 +110,10 @@ def run(ctx):
     for cname in ctx.configs():
         prog = ctx.program(cname)
         tag = "" if cname == "MAX" else "[%s]" % cname
+        # ---- M9: compile-time evaluation never yields an undefined value (shared with C04.K10): the mode is applied
+        # by the interpreter only
+        from .c04 import check_folder_never_undefined
+        check_folder_never_undefined(ctx, prog, "C12.M9.constant-folding-never-yields-undefined", tag)
         # ---- M1: readers of the discriminant
         readers = set()
         for f in prog.fns.values():
